@@ -41,6 +41,7 @@ type zOut struct {
 	Dump  map[string]vk.ZKNodeInfo
 	Owner []int64 // session id per client at the end
 	Notes []string
+	Notes2 []string
 }
 
 var zSegs = map[string]int{"a": 1, "b": 2, "c": 3, "lock": 9, "m": 8}
@@ -150,10 +151,34 @@ func zRun(t *testing.T, in zIn) zOut {
 				res = zErrGal(z.Create(o.P, o.V))
 			}
 		case "set":
+			// expectation from the server's truth: every ancestor missing or plain, the key itself missing or of a compatible kind
+			full := z.buildFullPath(o.P)
+			dump := srv.Dump()
+			mustWork := full != "/test"
+			for anc := full; ; {
+				i := strings.LastIndex(anc, "/")
+				if i <= 0 {
+					break
+				}
+				anc = anc[:i]
+				if n, ok := dump[anc]; ok && n.EphemeralOwner != 0 {
+					mustWork = false
+				}
+			}
+			if n, ok := dump[full]; ok && o.Eph && n.EphemeralOwner == 0 {
+				mustWork = false
+			}
 			if o.Eph {
 				res = zErrGal(z.SetEphemeral(o.P, o.V))
 			} else {
 				res = zErrGal(z.Set(o.P, o.V))
+			}
+			if mustWork && res != "ZOk" {
+				out.Notes2 = append(out.Notes2, fmt.Sprintf("op %d: set %q failed (%s) although every ancestor is missing or a plain key", len(out.Res), o.P, res))
+			} else if mustWork {
+				if n, ok := srv.Dump()[full]; !ok || string(n.Data) != fmt.Sprint(o.V) {
+					out.Notes2 = append(out.Notes2, fmt.Sprintf("op %d: after set %q = %d the key holds %q", len(out.Res), o.P, o.V, string(n.Data)))
+				}
 			}
 		case "get":
 			var v any
@@ -336,6 +361,13 @@ func zGen(o *vk.Out, lockHeavy bool) zIn {
 			in.Ops = append(in.Ops, zOp{Op: "get", C: c, P: zPaths(r, false)})
 		}
 	}
+	if !lockHeavy && in.Clients > 1 && r.Intn(3) == 0 {
+		// the same lock key under different spellings, by two clients
+		sp := func() string { return []string{"lock", "/lock", "lock/", "//lock"}[r.Intn(4)] }
+		at := r.Intn(len(in.Ops) + 1)
+		dance := []zOp{{Op: "acquire", C: 1, P: sp()}, {Op: "release", C: 1, P: sp()}, {Op: "acquire", C: 2, P: sp()}, {Op: "acquire", C: 1, P: sp()}, {Op: "release", C: 2, P: sp()}, {Op: "release", C: 1, P: sp()}}
+		in.Ops = append(in.Ops[:at], append(dance, in.Ops[at:]...)...)
+	}
 	// closing sweep: what every short path holds
 	for _, p := range []string{"a", "b", "a/a", "a/b", "b/a", "b/b", "a/a/a", "a/b/a", "lock", "m/lock", "m"} {
 		in.Ops = append(in.Ops, zOp{Op: "get", C: 1, P: p}, zOp{Op: "children", C: 1, P: p})
@@ -369,6 +401,9 @@ func zMonitor(m *vk.Meta, in zIn, out zOut) {
 	}
 	for _, n := range out.Notes {
 		m.Violation("a process is told it holds the lock only while the lock node belongs to its own live session", in, n)
+	}
+	for _, n := range out.Notes2 {
+		m.Violation("set creates missing parents and overwrites", in, n)
 	}
 	// ephemeral keys exist only while the creating session lives
 	live := map[int64]bool{}
